@@ -45,14 +45,14 @@ func frameCount(ms []ss.Msg) int {
 func build(d *desc) *ss.Case {
 	c := &ss.Case{Setup: d.Setup}
 	if len(d.Warm) > 0 {
-		st := ss.Step{Kind: "phase", ASends: d.ASends}
+		st := ss.Step{Kind: "phase", ASends: d.ASends, NoWire: d.Fault != "none"}
 		for _, m := range d.Warm {
 			st.SOps = append(st.SOps, m.SOps()...)
 			st.ROps = append(st.ROps, ss.ROpsFor("complete", len(m.Bytes()), 0)...)
 		}
 		c.Steps = append(c.Steps, st)
 	}
-	st := ss.Step{Kind: "phase", ASends: d.ASends, HasEdit: true, Edit: d.Edit}
+	st := ss.Step{Kind: "phase", ASends: d.ASends, HasEdit: true, Edit: d.Edit, NoWire: d.Fault != "none"}
 	for _, m := range d.Msgs {
 		st.SOps = append(st.SOps, m.SOps()...)
 		st.ROps = append(st.ROps, ss.ROpsFor(d.API, len(m.Bytes()), 1000)...)
